@@ -8,21 +8,37 @@ use std::fmt::Write as _;
 use crate::util::{self, Out, Rng};
 use crate::Args;
 
+#[cfg(feature = "c-addr")]
 pub mod addr;
+#[cfg(feature = "c-blk")]
 pub mod blk;
+#[cfg(feature = "c-bufs")]
 pub mod bufs;
+#[cfg(feature = "c-composite")]
 pub mod composite;
+#[cfg(feature = "c-config")]
 pub mod config;
+#[cfg(feature = "c-cq")]
 pub mod cq;
+#[cfg(feature = "c-encode")]
 pub mod encode;
+#[cfg(feature = "c-fds")]
 pub mod fds;
+#[cfg(feature = "c-inotify")]
 pub mod inotify;
+#[cfg(feature = "c-life")]
 pub mod life;
+#[cfg(feature = "c-pool")]
 pub mod pool;
+#[cfg(feature = "c-readbuf")]
 pub mod readbuf;
+#[cfg(feature = "c-smoke")]
 pub mod smoke;
+#[cfg(feature = "c-sq")]
 pub mod sq;
+#[cfg(feature = "c-teardown")]
 pub mod teardown;
+#[cfg(feature = "c-wake")]
 pub mod wake;
 
 /// What a case reports when it ends.
@@ -248,21 +264,37 @@ pub fn run_comp(a: &Args, comp: &mut dyn Comp) -> i32 {
 
 pub fn run(a: &Args) -> i32 {
     match a.comp.as_str() {
+        #[cfg(feature = "c-smoke")]
         "smoke" => smoke::run(a),
+        #[cfg(feature = "c-addr")]
         "addr" => run_comp(a, &mut addr::AddrComp),
+        #[cfg(feature = "c-life")]
         "life" => run_comp(a, &mut life::LifeComp),
+        #[cfg(feature = "c-cq")]
         "cq" => run_comp(a, &mut cq::CqComp),
+        #[cfg(feature = "c-fds")]
         "fds" => run_comp(a, &mut fds::FdsComp),
+        #[cfg(feature = "c-pool")]
         "pool" => run_comp(a, &mut pool::PoolComp),
+        #[cfg(feature = "c-encode")]
         "encode" => run_comp(a, &mut encode::EncodeComp),
+        #[cfg(feature = "c-sq")]
         "sq" => run_comp(a, &mut sq::SqComp),
+        #[cfg(feature = "c-blk")]
         "blk" => run_comp(a, &mut blk::BlkComp),
+        #[cfg(feature = "c-teardown")]
         "teardown" => run_comp(a, &mut teardown::TeardownComp),
+        #[cfg(feature = "c-wake")]
         "wake" => run_comp(a, &mut wake::WakeComp),
+        #[cfg(feature = "c-bufs")]
         "bufs" => run_comp(a, &mut bufs::BufsComp),
+        #[cfg(feature = "c-composite")]
         "composite" => run_comp(a, &mut composite::CompositeComp),
+        #[cfg(feature = "c-readbuf")]
         "readbuf" => run_comp(a, &mut readbuf::ReadBufComp),
+        #[cfg(feature = "c-config")]
         "config" => run_comp(a, &mut config::ConfigComp),
+        #[cfg(feature = "c-inotify")]
         "inotify" => run_comp(a, &mut inotify::InotifyComp),
         other => {
             eprintln!("unknown component {other}");
